@@ -105,13 +105,34 @@ def outputs(aa, inv):
     return q
 
 
-def same(ctx, q, ref, tolc, tolh):
+def same(ctx, q, ref, tolc, tolh, positive=False):
+    """Names of the outputs of q that differ from ref. D, F, H are compared entry-wise. The solution and what is computed from it
+    (s, mapped data, regularization term) are compared entry-wise when the reference system is well conditioned (cond <= 1e7: a
+    one-ulp difference in F or D then moves s by far less than 1e-7); otherwise a last-bit difference in F is amplified by the
+    condition number (seen: cond 1.7e14, F equal to 1.6e-19, s different by 9e-7) and the solution is judged by what defines it:
+    it must solve the reference system to working accuracy (unconstrained solver), or agree to the amplified rounding level."""
     bad = []
-    for k in ("D", "F", "H", "s", "mapped", "F_after"):
-        rt = 1e-9 if k != "s" and k != "mapped" else 1e-7
-        if not relclose(q[k], ref[k], rt):
+    for k in ("D", "F", "H", "F_after"):
+        if not relclose(q[k], ref[k], 1e-9):
             bad.append(k)
-    if abs(q["reg_term"] - ref["reg_term"]) > 1e-7 * max(1.0, abs(ref["reg_term"])):
+    A = ref["F"] + ref["H"]
+    cond = float(np.linalg.cond(A)) if np.isfinite(A).all() else float("inf")
+    if cond <= 1e7:
+        ctx.classes["solution_compared:entrywise"] += 1
+        rt = 1e-7
+    else:
+        ctx.classes["solution_compared:by_residual_or_amplified_rounding(cond>1e7)"] += 1
+        rt = max(1e-7, 1e-13 * cond)
+        if not positive and q["s"].shape == ref["s"].shape and "D" not in bad and "F" not in bad and "H" not in bad:
+            r = A @ q["s"] - ref["D"]
+            scale = float((np.abs(A) @ np.abs(q["s"]) + np.abs(ref["D"])).max())
+            r0 = A @ ref["s"] - ref["D"]
+            if not float(np.abs(r).max()) <= max(1e-9 * scale, 10.0 * float(np.abs(r0).max())):
+                bad.append("s")
+    for k in ("s", "mapped"):
+        if k not in bad and not relclose(q[k], ref[k], rt):
+            bad.append(k)
+    if abs(q["reg_term"] - ref["reg_term"]) > rt * max(1.0, abs(ref["reg_term"])):
         bad.append("reg_term")
     if abs(q["logdet_c"] - ref["logdet_c"]) > tolc:
         bad.append("logdet_c")
@@ -229,7 +250,7 @@ def run_input(ctx, i):
                 delta = {k: ctx.calls[k] - before.get(k, 0) for k in ctx.calls}
                 if not subset and rep == 0:
                     fresh_delta = delta
-                bad = same(ctx, q, ref, tolc, tolh)
+                bad = same(ctx, q, ref, tolc, tolh, positive)
                 ctx.check(not bad, "preload.transparent", rep=rep, differing=bad, got={k: q[k] for k in bad[:2]}, expected={k: ref[k] for k in bad[:2]}, **W)
                 if first is None:
                     first = q
@@ -302,7 +323,7 @@ def run_input(ctx, i):
                 except Exception as e:
                     ctx.check(False, "preload.transparent", rep=rep, exception=repr(e)[:300], slots_filled=filled, **W)
                     break
-                bad = same(ctx, q, ref, tolc, tolh)
+                bad = same(ctx, q, ref, tolc, tolh, positive)
                 ctx.check(not bad, "preload.transparent", rep=rep, differing=bad, slots_filled=filled, got={k: q[k] for k in bad[:2]}, expected={k: ref[k] for k in bad[:2]}, **W)
             ctx.case(case["m"], case["k"], case["d"], tagf, prod, nontrivial=bool(filled), cls=["formalism:" + tagf, "producer:" + prod] + ["producer_filled:" + k for k in filled],
                      sample=lambda: {"objects": desc, "formalism": tagf, "producer": prod, "slots_filled": filled})
